@@ -180,4 +180,7 @@ theorem so3Jl_mul_so3JlInv_taylor (eps : ℝ) (x : Vec3 ℝ) (h : ¬ eps < x.nor
   have hc : (so3Jl eps x).mul (so3JlInv eps x) = (so3JlInv eps x).mul (so3Jl eps x) := by
     rw [so3JlInv_eq_polyK, so3Jl_eq_polyK, polyK_mul, polyK_mul]; congr 1 <;> ring
   rw [hc, so3JlInv_mul_so3Jl_taylor eps x h]
+theorem add_normSq_le (u v : Vec3 ℝ) : (u.add v).normSq ≤ 2 * u.normSq + 2 * v.normSq := by
+  lie_unfold
+  nlinarith [sq_nonneg (u.x - v.x), sq_nonneg (u.y - v.y), sq_nonneg (u.z - v.z)]
 end PP
